@@ -214,17 +214,35 @@ func genSeq(r *Rng, zctx *zed.Context, n, hot int, focus []string) ([]LV, error)
 	return out, nil
 }
 
-// hasNullUnion: a null of union type anywhere inside (Value.Under spins forever
-// on it for every encoding alike, which is outside this property).
-func hasNullUnion(v zed.Value) bool {
-	found := false
-	zed.Walk(v.Type(), v.Bytes(), func(typ zed.Type, body zcode.Bytes) error {
-		if _, ok := zed.TypeUnder(typ).(*zed.TypeUnion); ok && body == nil {
-			found = true
+// containsEnum: an enum type occurs anywhere inside t.
+func containsEnum(t zed.Type) bool {
+	switch t := t.(type) {
+	case *zed.TypeEnum:
+		return true
+	case *zed.TypeNamed:
+		return containsEnum(t.Type)
+	case *zed.TypeRecord:
+		for _, f := range t.Fields {
+			if containsEnum(f.Type) {
+				return true
+			}
 		}
-		return nil
-	})
-	return found
+	case *zed.TypeArray:
+		return containsEnum(t.Type)
+	case *zed.TypeSet:
+		return containsEnum(t.Type)
+	case *zed.TypeMap:
+		return containsEnum(t.KeyType) || containsEnum(t.ValType)
+	case *zed.TypeError:
+		return containsEnum(t.Type)
+	case *zed.TypeUnion:
+		for _, u := range t.Types {
+			if containsEnum(u) {
+				return true
+			}
+		}
+	}
+	return false
 }
 
 func containsTypeValue(v zed.Value) bool {
@@ -333,7 +351,7 @@ func genRandSeq(r *Rng, zctx *zed.Context, n int) []LV {
 	vals := GenValues(r, zctx, n, 1+r.Intn(5), o)
 	var out []LV
 	for _, v := range vals {
-		if hasNullUnion(v) || !roundTrips(v) {
+		if !roundTrips(v) {
 			continue
 		}
 		label := "rand"
